@@ -543,7 +543,7 @@ pub fn strategy(g: &GenCfg, bias: u8) -> BoxedStrategy<Case> {
             for (ctx, ops) in r {
                 actors.push(Actor { ctx, role: 1, ops });
             }
-            Case { fam: "chan".into(), workers, pool, feat, cfg: vec![kind, drain], actors, sched }
+            Case { fam: "chan".into(), workers, pool, feat, cfg: vec![kind, drain], actors, sched, weak: 0 }
         })
     })
     .boxed()
